@@ -301,6 +301,8 @@ package analysis
 //@   -- wrapped in a Named node for user-defined types
 //@   ensures result2 ==> (nodeIsDate(result1) <==> strings.Contains(strings.ToLower(as(typ, *types.Named).Obj().Name()), "date"))
 //@   ensures result2 && is(result1, *Named) ==> is(as(result1, *Named).Underlying, *Time)
+//@   -- only time.Time itself (package PATH "time") is reported as the bare predefined node
+//@   ensures result2 ==> (is(result1, *Named) <==> as(typ, *types.Named).Obj().Pkg().Path() != "time")
 //@   ensures result2 ==> result1 != nil && (is(result1, *Time) || is(result1, *Named))
 //@   ensures result2 && is(result1, *Named) ==> as(result1, *Named).name == typ && as(result1, *Named).Underlying != nil
 
@@ -325,6 +327,9 @@ package analysis
 //@   loop for.1 invariant isnil(out) || (fresh(out) && allocated(out))
 //@   -- C09: an untagged embedded struct — exported or not: encoding/json promotes the fields of both — is flattened:
 //@   -- its fields are appended, all of them, in order
+//@   -- C09 / C12 / C15: any other field (blank, unexported, ignored, embedded pointer or non-struct) yields exactly one
+//@   -- entry, for itself, with the node of its type
+//@   loop for.1 endassert !(field.Embedded() && is(fieldType, *Struct)) ==> len(out) == athead(len(out)) + 1 && out[len(out)-1].Field == field && out[len(out)-1].Type == fieldType && out[len(out)-1].Tag == tag
 //@   loop for.1 endassert field.Embedded() && tag.Get("json") == "" && is(fieldType, *Struct) ==> len(out) == athead(len(out)) + len(as(fieldType, *Struct).Fields) && (forall m int :: 0 <= m && m < len(as(fieldType, *Struct).Fields) ==> out[athead(len(out)) + m] == as(fieldType, *Struct).Fields[m])
 
 //@ func (*Analysis).createType
